@@ -5,7 +5,8 @@ Line-protocol driver for engine `fft` (property C04).
 Case:  `fft <f64|f32> ; op ; op ; … ; op`   — all ops are performed on ONE object created by `new`;
 the answer is the result of the LAST op (earlier ops are the call history).
 
-ops:  `u n` | `m a b` | `mi a b res` | `f v n` | `fi v n rx ry` | `inv xs ys` | `ii xs ys res` | `fm a b n` | `fmx a b n`
+ops:  `u n` | `m a b` | `mi a b res` | `f v n` | `fi v n rx ry` | `inv xs ys` | `ii xs ys res` | `fm a b n` | `fmx a b n` | `fmi a b n res`
+      (`fmi` = forward transforms, pointwise product, `fft_inv_into` with the pre-filled destination `res` of any length)
       (`fmx` = forward transforms on this object, inverse transform of the pointwise product on a brand-new one)
       (vectors are comma lists, `-` = empty)
 raw : i64 vector results as `[..]` (digest `n=<len>:h=<fnv>` above 48 entries); complex results as bit patterns
@@ -55,6 +56,7 @@ inductive POp where
   | ii (xs ys : Array Int) (res : List Int)
   | fm (a b : Array Int) (n : Nat)
   | fmx (a b : Array Int) (n : Nat)
+  | fmi (a b : Array Int) (n : Nat) (res : List Int)
 
 /-- State of the comma-list scanner: values so far, current magnitude, sign, digit seen, still well-formed. -/
 structure Scan where
@@ -91,6 +93,7 @@ def parseOp? (s : String) : Option POp :=
   | ["ii", xs, ys, r] => do pure (POp.ii (← parseVec? xs) (← parseVec? ys) ((← parseVec? r).toList))
   | ["fm", a, b, n] => do pure (POp.fm (← parseVec? a) (← parseVec? b) (← parseNat? n))
   | ["fmx", a, b, n] => do pure (POp.fmx (← parseVec? a) (← parseVec? b) (← parseNat? n))
+  | ["fmi", a, b, n, r] => do pure (POp.fmi (← parseVec? a) (← parseVec? b) (← parseNat? n) ((← parseVec? r).toList))
   | _ => none
 
 /-- Result of one call as printed. -/
@@ -117,6 +120,7 @@ def POp.valid : POp → Bool
   | .ii xs ys _ => fitsI32 xs && fitsI32 ys && xs.size == ys.size && isPow2 xs.size
   | .fm a b n => fitsI32 a && fitsI32 b && isPow2 n && a.size ≤ n && b.size ≤ n
   | .fmx a b n => fitsI32 a && fitsI32 b && isPow2 n && a.size ≤ n && b.size ≤ n
+  | .fmi a b n _ => fitsI32 a && fitsI32 b && isPow2 n && a.size ≤ n && b.size ≤ n
 
 /-- The model-level call a protocol op denotes. -/
 def POp.toOp {K} (P : Prec K) : POp → Op K
@@ -129,6 +133,7 @@ def POp.toOp {K} (P : Prec K) : POp → Op K
   | .ii xs ys res => .fftInvInto (cplx P xs ys) res
   | .fm a b n => .fftMulInv a b n
   | .fmx a b n => .fftMulInvFresh a b n
+  | .fmi a b n res => .fftMulInvInto a b n res
 
 /-- Perform one call on the model object (`Rlib.Fft.call` / `Rlib.Fft.step`, the definitions the
     theorems of `Props/C04.lean` are about). -/
@@ -156,13 +161,19 @@ def inEnvelope {K} (P : Prec K) (a b : Array Int) : Bool :=
 
 def smallRes (res : List Int) : Bool := res.all (fun x => x.natAbs ≤ 1000000000000000)
 
+/-- Cyclic (size `n`) folding of a coefficient list: `out[i] = ∑ₖ c[i + k·n]`; for `|c| ≤ n` it is `c` followed by zeros. -/
+def cyc (n : Nat) (c : List Int) : List Int :=
+  if n = 0 then [] else
+  ((c.foldl (fun (st : Array Int × Nat) x => (st.1.modify (st.2 % n) (· + x), st.2 + 1)) (Array.replicate n 0, 0)).1).toList
+
 /-- The exact result the specification prescribes for the call (computed once per case). -/
 def expected (op : POp) : Option (List Int) :=
   match op with
   | .m a b => some (conv a b)
   | .mi a b res => some (addPrefix res (conv a b))
-  | .fm a b n => some (conv a b ++ List.replicate (n - (a.size + b.size - 1)) 0)
-  | .fmx a b n => some (conv a b ++ List.replicate (n - (a.size + b.size - 1)) 0)
+  | .fm a b n => some (cyc n (conv a b))
+  | .fmx a b n => some (cyc n (conv a b))
+  | .fmi a b n res => some (addPrefix res (cyc n (conv a b)))
   | _ => none
 
 def padTo (xs : List Int) (n : Nat) : List Int := xs ++ List.replicate (n - xs.length) 0
@@ -174,13 +185,15 @@ def specOf {K} (P : Prec K) (exp : Option (List Int)) : POp → Option String
   | .mi a b res =>
     if inEnvelope P a b && smallRes res then exp.map (fun e => s!"{showIVec e} fresh=same oracle=exact") else none
   | .f v n => let n := fftSize v.size n; if isPow2 n then some s!"len={n} fresh=same" else none
-  | .fi v n rx _ => let n := fftSize v.size n; if isPow2 n then some s!"len={rx.size} fresh=same" else none
+  | .fi v n rx _ => let n := fftSize v.size n; if isPow2 n then some s!"len={rx.size} fresh=same tail=kept" else none
   | .inv _ _ => some "fresh=same"
-  | .ii _ _ _ => some "fresh=same"
-  | .fm a b n | .fmx a b n =>
+  | .ii _ _ _ => some "fresh=same tail=kept"
+  | .fm a b _ | .fmx a b _ =>
     if a.size = 0 ∨ b.size = 0 then none
-    else if inEnvelope P a b && a.size + b.size - 1 ≤ n then
-      exp.map (fun e => s!"{showIVec e} fresh=same oracle=exact") else none
+    else if inEnvelope P a b then exp.map (fun e => s!"{showIVec e} fresh=same oracle=exact") else none
+  | .fmi a b _ res =>
+    if a.size = 0 ∨ b.size = 0 then none
+    else if inEnvelope P a b && smallRes res then exp.map (fun e => s!"{showIVec e} fresh=same oracle=exact") else none
 
 /-- The view of a result through the property's eyes.  For the calls whose VALUE the property fixes
     (`inDom`: multiply, multiply_into, forward·pointwise·inverse inside the envelope) the value part of the
@@ -197,8 +210,15 @@ def viewOf {K} (P : Prec K) (exp : Option (List Int)) (inDom : Bool) (op : POp) 
   | _, .panic _ => rawU
   | _, .invalid => rawU
   | .f _ _, .cvec xs => s!"len={xs.size} {same}"
-  | .fi _ _ _ _, .cvec xs => s!"len={xs.size} {same}"
+  | .fi v n rx ry, .cvec xs =>
+    -- entries of the destination beyond the transform size must be untouched (bit for bit)
+    let k := fftSize v.size n
+    let keep := ((xs.toList.drop k).map P.bits) == (((cplx P rx ry).toList.drop k).map P.bits)
+    s!"len={xs.size} {same} tail={if keep then "kept" else "changed"}"
   | .inv _ _, _ => same
+  | .ii xs _ res, .ivec out =>
+    let keep := out.length == res.length && out.drop xs.size == res.drop xs.size
+    s!"{same} tail={if keep then "kept" else "changed"}"
   | .ii _ _ _, _ => same
   | _, .ivec xs =>
     match exp with
